@@ -137,6 +137,9 @@ def replay_history(am, h, tmpdir, tag):
                         return ('flatten[all]: number of rows', where + ' got %d expected %d' % (len(res), st['nall']))
                 else:
                     exp = st['expect']
+                    if len(res) != len(exp) and st['style'] == 'last' and not st['endsmonotone'] and len(res) < len(exp):
+                        return ('flatten[last]: timesteps that only an earlier run covers are dropped when a later run ends before it',
+                                where + ' got %d rows expected %d' % (len(res), len(exp)))
                     if len(res) != len(exp):
                         lastempty = len(st['sims'][-1]['rows']) == 0
                         return ('flatten[%s]: wrong number of timesteps%s' % (st['style'], ' (final run has a header but no rows)' if lastempty else ''),
@@ -175,6 +178,9 @@ def run(ctx):
     r = tlc.must_pass(tlc.run('MC_LogFile', 'Log_exh.cfg', workers=16, timeout=3000, heap='8g'), 'Log_exh')
     ctx.add_tlc(r)
     hists = list(r.cases)
+    r3 = tlc.must_pass(tlc.run('MC_LogFile', 'Log_exh3.cfg', workers=16, timeout=3000, heap='8g'), 'Log_exh3')
+    ctx.add_tlc(r3)
+    hists += r3.cases
     ctx.exhaustive = True
     import concurrent.futures as cf
     per = 6 if quick else 150
